@@ -15,6 +15,7 @@ RULE = ("lattice of module instances (pmc/modspecs.py: constructor options x gri
         "oracle Re sum(g*v) == d/dt Re sum(w*y(x+tv)): exact difference for linear modules (ALG), Richardson-extrapolated "
         "central differences with a convergence test otherwise (DERIV). Non-trivial = at least one non-zero Jacobian entry; "
         "distinct by descriptor")
+RULE += " Extended in seeding rounds 6-7:  seeds that copy an input state, dyadic seeds (no dyads / two dyads) on sparse outputs, complex-typed loads holding real values, matrix-shaped aggregation inputs."
 ASSUMPTIONS = ["numerical derivatives: Richardson (4D(h/2)-D(h))/3 accepted only if two step sizes agree to 1e-6*scale, "
                "independent of the analytic value; unconverged points are inconclusive, never violations",
                "matrix inputs are perturbed only inside the class the module detected or was told (symmetric pairs, "
